@@ -403,6 +403,10 @@ class WebSocketApp:
                 else:
                     self._callback(self.on_open)
 
+                if self.sock is None:
+                    # close() was called from inside on_open / on_reconnect
+                    return
+
                 dispatcher.read(self.sock.sock, read, check)
             except (
                 WebSocketConnectionClosedException,
